@@ -7,6 +7,8 @@
      q               zck_close
      g<k>            zck_get_chunk_data of chunk k with a buffer of the declared (uncompressed) size
      G<k>:<size>     the same with a given buffer size
+     P<k>:<size>     as G, and prints a 4th field: sha256/64 of the first min(returned, declared size)
+                     bytes, the part that belongs to the requested chunk
      c<k>            zck_get_chunk_comp_data of chunk k with a buffer of the stored size
      (a line "T <sample size> <capacity> <samples hex>" trains a zstd-format dictionary and prints dict=<hex>)
    Output: open=<0|1> then per op  <op>=<return value>/<bytes handed out by successful calls>/<sha256/64 of them>!<error state>
@@ -92,17 +94,23 @@ int main(void) {
             case 'v': printf(" v=%d!%d", zck_validate_checksums(zck), zck_is_error(zck)); break;
             case 'f': printf(" f=%d!%d", zck_find_valid_chunks(zck), zck_is_error(zck)); break;
             case 'e': printf(" e=%d!%d", zck_clear_error(zck) ? 1 : 0, zck_is_error(zck)); break;
-            case 'g': case 'c': case 'G': {
+            case 'g': case 'c': case 'G': case 'P': {
                 char *p; long k = strtol(o + 1, &p, 10);
                 zckChunk *c = nth(zck, k);
                 if(!c) { printf(" %c=nochunk", o[0]); break; }
                 ssize_t want = o[0] == 'c' ? zck_get_chunk_comp_size(c) : zck_get_chunk_size(c);
-                if(o[0] == 'G' && *p == ':') want = (ssize_t)strtoull(p + 1, NULL, 10);
+                if((o[0] == 'G' || o[0] == 'P') && *p == ':') want = (ssize_t)strtoull(p + 1, NULL, 10);
                 size_t bs = want < 0 ? 0 : (size_t)want;
                 char *buf = malloc(bs ? bs : 1);
                 ssize_t r = o[0] == 'c' ? zck_get_chunk_comp_data(c, buf, bs) : zck_get_chunk_data(c, buf, bs);
                 hash_one(buf, r > 0 ? (size_t)r : 0, hx);
-                printf(" %c=%zd/%zu/%s!%d", o[0], r, r > 0 ? (size_t)r : 0, hx, zck_is_error(zck)); free(buf); break; }
+                printf(" %c=%zd/%zu/%s", o[0], r, r > 0 ? (size_t)r : 0, hx);
+                if(o[0] == 'P') {   /* also the part that belongs to the requested chunk: the first <declared size> bytes */
+                    ssize_t decl = zck_get_chunk_size(c); size_t pre = r > 0 ? (size_t)r : 0;
+                    if(decl >= 0 && pre > (size_t)decl) pre = (size_t)decl;
+                    char hp[17]; hash_one(buf, pre, hp); printf("/%s", hp);
+                }
+                printf("!%d", zck_is_error(zck)); free(buf); break; }
             default: printf(" ?");
             }
         }
